@@ -115,6 +115,7 @@ func checkC07(r *Run) {
 	r.Rule("marker programs (every identifier, string, number and template chunk unique in the build; tabs, very long lines, CRLF/CR/U+2028 line ends, astral characters in comments and strings, BOM) as single files (Transform) and as graphs of 2–6 files (Build: bundle, splitting with dynamic imports whose hashed paths are substituted in the middle of lines, files that record no names) × 9 variants (format, minify subsets, sourcemap inline/linked/external/both, sources-content, source-root, banner/footer, charset, line-limit); plus inputs that carry an input source map written by the monitor's own encoder (re-laid-out copies of an original). " +
 		"Each emitted map is decoded by an own VLQ decoder and checked: version/indices/sortedness/positions in range, every original position against acorn token tables of the sources, every name against the original identifier, every generated marker token against the marker at its mapped origin, sourcesContent against the files. non-trivial = distinct build whose maps contained ≥1 marker mapping")
 	r.Assume("acorn's tokenizer gives token starts; UTF-16 columns and the language's line terminators are computed by the monitor; a generated position designates the first token at or after it (statement mappings are recorded before indentation)")
+	c07RealPaths(r)
 	var st c07Stats
 	variants := c07Variants()
 	n := r.pick(500, 12000)
